@@ -242,3 +242,157 @@ def run_dep(ctx, rep, prop, cfg="Q", rule="DEP"):
                     "%s:%s" % (fd.fn.file, lines[0] if lines else ""))
     rep.floor(rule + " rows", n, 1)
     return n
+
+
+def run_eq_hash(ctx, rep, cfg="Q", rule="EQ-HASH", select=None, floor=20):
+    """k1 == k2 must imply hash(k1) == hash(k2): whatever a Hash impl feeds to the hasher must be something the PartialEq impl
+    of the same type compares"""
+    import re
+    rep.rule(rule, "for every type of the crate with both a Hash and a PartialEq impl, every field path of `self` that the Hash impl "
+                   "feeds to the hasher (may-dependence of the hasher state, followed through the field types' own impls) is also a "
+                   "field path the PartialEq impl's result depends on: a hashed-but-not-compared field (for instance the debug-only "
+                   "min/max tracking fields of the ranged integers) makes equal values hash differently")
+    prog = ctx.prog(cfg)
+    eng = getattr(ctx, "_dep_" + cfg, None)
+    if eng is None:
+        eng = dep.Engine(prog)
+        setattr(ctx, "_dep_" + cfg, eng)
+    n = 0
+    for k in sorted(prog.fns):
+        f = prog.fns[k]
+        if f.crate != "jiff" or f.is_closure:
+            continue
+        m = re.match(r"^jiff::<(.+) as core::hash::Hash>::hash$", k)
+        if not m:
+            continue
+        ty = m.group(1)
+        if select is not None and not select(ty):
+            continue
+        base = ty.split("<")[0]
+        eqs = [kk for kk in prog.fns if kk.startswith("jiff::<" + base) and re.search(r" as core::cmp::PartialEq(<.*>)?>::eq$", kk)
+               and kk[len("jiff::<"):].split(" as ")[0].split("<")[0] == base]
+        if not eqs:
+            continue
+        n += 1
+        fh = eng.fndeps(k)
+        hd = set()
+        for l, d in fh.out_params().items():
+            hd |= {s[2] for s in d if s[0] == "p" and s[1] == 1}
+        ed = set()
+        for ek in eqs:
+            fe = eng.fndeps(ek)
+            for (_bi, _kind, deps, _ln, _c) in fe.alternatives(((),)):
+                ed |= {s[2] for s in deps[()] if s[0] == "p" and s[1] in (1, 2)}
+        # a hashed path is fine if it, a prefix of it, or an extension of it is compared
+        def covered(p):
+            for q in ed:
+                m_ = min(len(p), len(q))
+                if p[:m_] == q[:m_]:
+                    return True
+            return False
+        extra = sorted(".".join(p) for p in hd if not covered(p))
+        key = ty.split("::")[-1] if "::" in ty else ty
+        key = re.sub(r"<.*$", "", ty)
+        if extra:
+            rep.violation(rule, key, "Hash for %s feeds %s to the hasher, which PartialEq for the same type does not compare: values that "
+                          "are == can have different hashes" % (ty, extra[:6]), f.loc())
+        else:
+            rep.ok(rule, key, how="%d hashed field path(s), all compared" % len(hd), loc=f.loc())
+    rep.floor(rule + " types", n, floor)
+
+
+# binary checked operations: (properties, function, (operand a, operand b), exempt one-operand failures)
+ERR_BOTH = [
+    (("C12",), "signed_duration::SignedDuration::checked_add", ("self", "rhs"), ()),
+    (("C12",), "signed_duration::SignedDuration::checked_sub", ("self", "rhs"), ()),
+    (("C12",), "signed_duration::SignedDuration::checked_mul", ("self", "rhs"), ()),
+    (("C12",), "signed_duration::SignedDuration::checked_div", ("self", "rhs"), ("rhs",)),      # division by zero
+    # a delta beyond the distance between Date::MIN and Date::MAX (7_304_483 days) is out of range from every start:
+    # a one-operand range check of the delta is sound iff its bounds admit at least +-7_304_483 (validated below)
+    (("C08",), "civil::date::Date::checked_add_duration", ("self", "duration"), (("duration", 7_304_483),)),
+    (("C08",), "civil::datetime::DateTime::checked_add_duration", ("self", "duration"), ()),
+    (("C08", "C06"), "timestamp::Timestamp::checked_add_duration", ("self", "duration"), ()),
+    (("C08",), "civil::time::Time::checked_add_duration", ("self", "duration"), ()),
+]
+
+
+def _range_checks_admit(fd, operand_local, halfwidth):
+    """every checked ranged conversion (try_new / try_rfrom ..) in the function that is applied to a value depending on the
+    given operand only has bounds that admit [-halfwidth, halfwidth]; at least one such conversion exists"""
+    import re
+    fd.run()
+    n = 0
+    for bi, b in enumerate(fd.fn.blocks):
+        t = b["term"]
+        if t["t"] != "call" or not re.search(r"::(try_new|try_new128|try_rfrom|try_rinto)$", t.get("path", "")):
+            continue
+        st = fd.out_state.get(bi) or fd.in_state.get(bi)
+        if st is None:
+            continue
+        deps = set()
+        for a in t.get("args", []):
+            deps |= fd.read_op(st, a)
+        params = {s_[1] for s_ in deps if s_[0] == "p"}
+        if params != {operand_local}:
+            continue
+        m = re.search(r"ri\d+::?<(-?\d+), (-?\d+)>", t.get("fn", "")) or re.search(r"ri\d+<(-?\d+), (-?\d+)>", t.get("fn", ""))
+        if not m:
+            return False
+        lo, hi = int(m.group(1)), int(m.group(2))
+        if lo > -halfwidth or hi < halfwidth:
+            return False
+        n += 1
+    return n > 0
+
+
+def run_err_both(ctx, rep, prop, cfg="Q", rule="ERR-BOTH"):
+    """`a op b` fails "exactly when the true result is unrepresentable": whether it is depends on both operands"""
+    rep.rule(rule, "in the listed checked binary operations every failing return (None / Err, including `?` propagation) is selected by "
+                   "a condition that depends on BOTH operands (may-dependence of the guard, data and control): the result of a + b "
+                   "or a - b is out of range for some a and in range for others, so a failure decided by looking at one operand "
+                   "alone (negating the right-hand side first, range-checking a delta as if it were an absolute position) rejects "
+                   "representable results; listed one-operand failures (division by zero) are exempt")
+    prog = ctx.prog(cfg)
+    eng = getattr(ctx, "_dep_" + cfg, None)
+    if eng is None:
+        eng = dep.Engine(prog)
+        setattr(ctx, "_dep_" + cfg, eng)
+    n = 0
+    for (props, path, (pa, pb), exempt) in ERR_BOTH:
+        if prop not in props:
+            continue
+        key0 = path.split("::")[-2] + "::" + path.split("::")[-1]
+        fd = eng.fndeps("jiff::" + path)
+        if fd is None:
+            rep.violation(rule, key0, "anchor missing: function %s not found" % path, "")
+            continue
+        la, _ = _needs(fd, pa)
+        lb, _ = _needs(fd, pb)
+        if la is None or lb is None:
+            rep.violation(rule, key0, "anchor missing: operands %s/%s of %s not found" % (pa, pb, path), fd.fn.file)
+            continue
+        errs = [a for a in fd.alternatives(((),)) if a[1] in ("err", "none")]
+        n += 1
+        bad = []
+        for (bi, kind, deps, ln, ctrl) in errs:
+            ha = any(s_[0] == "p" and s_[1] == la for s_ in ctrl)
+            hb = any(s_[0] == "p" and s_[1] == lb for s_ in ctrl)
+            if ha and hb:
+                continue
+            only = pa if ha else (pb if hb else "neither operand")
+            if only in exempt:
+                continue
+            wide = [e for e in exempt if isinstance(e, tuple) and e[0] == only]
+            if wide and _range_checks_admit(fd, lb if only == pb else la, wide[0][1]):
+                continue
+            bad.append((ln, only))
+        if not errs:
+            rep.violation(rule, key0, "anchor missing: no failing return found in %s" % path, fd.fn.file)
+        elif bad:
+            rep.violation(rule, key0, "%s: the failing return(s) at line(s) %s are decided by %s alone; a failure of `a op b` that does not "
+                          "look at the other operand rejects results that are representable" % (
+                              props[0], sorted({str(b[0]) for b in bad}), sorted({b[1] for b in bad})),
+                          "%s:%s" % (fd.fn.file, bad[0][0]))
+        else:
+            rep.ok(rule, key0, how="%d failing return(s), each guarded by both operands" % len(errs), loc=fd.fn.file)
+    rep.floor(rule + " functions", n, 1)
